@@ -108,10 +108,26 @@ def make_prog(spec, i):
         threads.append(steps)
     rsteps = [_read_step(r, kind, rh, rt, rpath) for _ in range(r.choice([1, 2]))]
     threads.append(rsteps)
+    if topo == "T2" and r.random() < 0.2:
+        # the file does not exist yet: the writer creates it while the reader (own object) reads
+        from vf.catalog import MISSING
+
+        init = MISSING
+        threads = []
+        for ti in range(nwriters):
+            steps = []
+            for si in range(2):
+                if kind == "dict":
+                    steps.append({"op": "setitem", "h": 0, "path": [], "args": [f"n{ti}{si}", concgen.uval(ti, si, r)]})
+                else:
+                    steps.append({"op": "append", "h": 0, "path": [], "args": [concgen.uval(ti, si, r)]})
+            threads.append(steps)
+        threads.append([{"op": r.choice(["len", "call", "iter"]), "h": 1, "path": [], "args": []} for _ in range(2)])
+        topo = "T2_missing"
     prog = {"cls": info.name, "init": init, "roots": roots, "pre": pre, "threads": threads}
     if spec["mode"] == "ctx":
         prog["buffered"] = {"cap": None}
-    shared = topo != "T2" or (spec["mode"] == "ctx" and info.strategy == "memory")
+    shared = topo not in ("T2", "T2_missing") or (spec["mode"] == "ctx" and info.strategy == "memory")
     return prog, {"topology": topo, "shared_tree": shared,
                   "stratum": "shared_tree" if shared else "own_tree"}, r
 
